@@ -7,6 +7,15 @@ COMMON_NOTE = ("Trusted: Coq 8.16.1 kernel + vm_compute (no native_compute, no a
                "stream drives it; tsstrip + Node 20 driver / Rust harness; generated tables (Model/Generated.v) extractor. ")
 
 CHECKS = {
+ "C02": ("Theorems: C02_flat_unsupported_throws — for every tree/environment/state, a successful flat schema() implies no Date, "
+         "bigint, Map, Set or typed array at any position the printer visits (so such types throw instead of emitting a schema); "
+         "C02_refuted_tuple_without_minItems and C02_refuted_never_is_malformed exhibit the unchanged code's violations against the "
+         "Coq reading of Draft 2020-12 (Model/JsonSchema.v). Soundness ('valid against the schema => accepted, no undeclared key'), "
+         "completeness on null-free exact members, well-formedness and $ref resolution are decided per generated (type, document) "
+         "by python jsonschema on the implementation's flat and contextual schemas (search); the schema printer model is tied to "
+         "codegen-v2.ts/openapi-pp.ts by comparing every emitted schema.",
+         "Soundness/completeness are not proved (only refuted where false and searched elsewhere); python jsonschema is the oracle "
+         "for Draft 2020-12; flat schemas of recursive types are outside the claim, as the property says."),
  "C03": ("Theorems (all trees, environments, values, options): safeParse succeeds iff validate = true (and parse returns iff "
          "safeParse succeeds; failure implies validate = false); validate never throws outside discriminator dispatch "
          "(C03_validate_never_throws_except_known); refutations with witnesses for the throw and for re-validation of the "
